@@ -151,7 +151,23 @@ inline bool mutate_tree(std::vector<Node> &roots, Rng &r, size_t maxOut, const s
     Node &nd = (*t.vec)[t.idx];
     Bytes cur; ser(nd, cur);
     size_t real = cur.size();
-    unsigned op = (unsigned) r.below(donor ? 14 : 13);
+    unsigned op = (unsigned) r.below(donor ? 15 : 14);
+    if (op == 13) { // pad one primitive value so that the OUTERMOST TLV's content length lands on a 15/16-bit boundary
+        static const size_t targets[] = { 0x7fff, 0x8000, 0x8001, 0xfffb, 0xfffc, 0xfffd, 0xfffe, 0xffff, 0x10000, 0x10001, 0x10004 };
+        size_t want = targets[r.below(sizeof targets / sizeof targets[0])];
+        if (nd.parsedKids || nd.raw || roots.empty() || want + 16 > maxOut) return false;
+        uint8_t fill = nd.content.empty() ? 'a' : nd.content[nd.content.size() - 1];
+        if (fill < 0x20 || fill > 0x7e) fill = 'a';
+        for (int it = 0; it < 4; it++) {
+            Bytes rootBody;
+            if (roots[0].parsedKids) { if (roots[0].bitPad != 0xff) rootBody.push_back(roots[0].bitPad); ser_list(roots[0].kids, rootBody); } else rootBody = roots[0].content;
+            if (rootBody.size() == want) return true;
+            if (rootBody.size() > want) { size_t over = rootBody.size() - want; if (nd.content.size() < over) return it > 0; nd.content.resize(nd.content.size() - over); }
+            else nd.content.resize(nd.content.size() + (want - rootBody.size()), fill);
+        }
+        return true;
+    }
+    if (op == 14) op = 13; // splice (donor present)
     switch (op) {
     case 0: // tag change
         switch (r.below(3)) { case 0: nd.tag = kTags[r.below(sizeof kTags)]; break; case 1: nd.tag ^= (uint8_t) (1u << r.below(8)); break; default: nd.tag = (uint8_t) r.next(); }
